@@ -33,7 +33,13 @@ def _job(a):
         from . import c01_l3
         return c01_l3.job((c, sh[0], sh[1]))
     if kind == "cross":
-        return [dict(name="cross", status="x", strength="aux", backend="cpython", secs=0, aux=crosscheck_shape(c, sh))]
+        from ..bounded import Budget, time_budget
+        try:
+            with time_budget(60):
+                aux = crosscheck_shape(c, sh)
+        except Budget:
+            aux = dict(contract=c.name, shape=c.shape_str(sh), agree=None, detail="native run exceeded 60 s: skipped")
+        return [dict(name="cross", status="x", strength="aux", backend="cpython", secs=0, aux=aux)]
     raise ValueError(kind)
 
 
@@ -70,8 +76,8 @@ def run(tier, only=None):
                 for sh in samp:
                     canaries.append(("canary1" if layer == "L1" else "canary2", c, sh))
                 for sh in rnd.sample(kept, min(len(kept), 3 if tier == "quick" else 12)):
-                    if layer == "L1" and c.name.startswith("QintImp.mul") and max(sh[0].BIT_SIZE if hasattr(sh[0], "BIT_SIZE") else 0,
-                                                                                   sh[1].BIT_SIZE if hasattr(sh[1], "BIT_SIZE") else 0) > 4:
+                    # running the multiplier natively on sympy Symbols blows up beyond 4 x 4 bits: no native cross-check there
+                    if layer == "L1" and "mul" in c.name and max([getattr(x, "BIT_SIZE", 0) for x in sh if isinstance(x, type)] + [0]) > 4:
                         continue
                     cross.append(("cross", c, sh))
     l3 = []
